@@ -1,5 +1,6 @@
 import copy
 import importlib
+import json
 import logging
 import os
 import os.path
@@ -96,6 +97,14 @@ def redirect_exception(old_exc, new_exc):
         return inner_wrapper
 
     return wrapper
+
+
+def dump_json_atomically(obj, path, **kwargs):
+    """Write `obj` as JSON to `path` such that `path` always holds a complete document."""
+    tmp_path = f"{path}.tmp"
+    with open(tmp_path, "w") as tmp_file:
+        json.dump(obj, tmp_file, **kwargs)
+    os.replace(tmp_path, path)
 
 
 def ensure_trailing_newline(s):
